@@ -13,6 +13,7 @@ import (
 	"github.com/sboehler/knut/lib/journal"
 	"github.com/sboehler/knut/lib/journal/performance"
 	"github.com/sboehler/knut/lib/model/account"
+	"github.com/sboehler/knut/lib/model/commodity"
 )
 
 type Query struct {
@@ -29,8 +30,10 @@ func (q Query) Execute(j *journal.Builder, r *Report) *journal.Processor {
 				return nil
 			}
 			var total float64
-			for _, v := range d.Performance.V1 {
-				total += v
+			// sum in a fixed order: the result of a floating point sum depends on the order
+			coms := dict.SortedKeys(d.Performance.V1, commodity.Compare)
+			for _, com := range coms {
+				total += d.Performance.V1[com]
 			}
 			for com, v := range d.Performance.V1 {
 				ss := q.Universe.Locate(com)
@@ -81,8 +84,8 @@ func (r *Report) PropagateWeights() {
 		if n.Value.Weights == nil {
 			n.Value.Weights = make(map[time.Time]float64)
 		}
-		for _, ch := range n.Children {
-			for date, w := range ch.Value.Weights {
+		for _, name := range dict.SortedKeys(n.Children, compare.Ordered[string]) {
+			for date, w := range n.Children[name].Value.Weights {
 				n.Value.Weights[date] += w
 			}
 		}
